@@ -13,9 +13,10 @@ git diff -- sigpyproc > /tmp/seed_$NAME.diff
 mkdir -p sigpyproc.egg-info; [ -f sigpyproc.egg-info/PKG-INFO ] || printf 'Metadata-Version: 2.1\nName: sigpyproc\nVersion: 2.0.0\n' > sigpyproc.egg-info/PKG-INFO
 export NUMBA_DISABLE_PERFORMANCE_WARNINGS=1 PYTHONWARNINGS=ignore
 /venv/bin/python $DEMO > /tmp/seed_$NAME.with 2>&1; RC_WITH=$?
-git stash -q
+# (no `git stash`: the stash is shared by all worktrees of a repository)
+git apply -R /tmp/seed_$NAME.diff || { echo "cannot revert"; exit 2; }
 /venv/bin/python $DEMO > /tmp/seed_$NAME.without 2>&1; RC_WITHOUT=$?
-git stash pop -q
+git apply /tmp/seed_$NAME.diff || { echo "cannot re-apply"; exit 2; }
 SUITE=$(/venv/bin/python -m pytest -q -p no:cacheprovider --timeout=900 tests 2>&1 | tail -1)
 echo "demo with change: rc=$RC_WITH ($(tail -1 /tmp/seed_$NAME.with | cut -c1-160))"
 echo "demo without    : rc=$RC_WITHOUT ($(tail -1 /tmp/seed_$NAME.without | cut -c1-80))"
@@ -29,7 +30,7 @@ if [ $RC_WITH -ne 0 ] && [ $RC_WITHOUT -eq 0 ] && [ $OKS -eq 1 ]; then
 import json,sys
 json.dump({"property": sys.argv[2], "needs": "", "confirmed": {"demo_rc_with_change": int(sys.argv[3]),
   "demo_rc_without": int(sys.argv[4]), "pytest_summary_with_change": sys.argv[5],
-  "commands": ["/venv/bin/python demo.py (cwd = worktree with the patch)", "git stash; demo; git stash pop",
+  "commands": ["/venv/bin/python demo.py (cwd = worktree with the patch)", "git apply -R patch; demo; git apply patch",
                "/venv/bin/python -m pytest -q -p no:cacheprovider --timeout=900 tests"]},
   "source": "independent sub-agent given only the property text and a scratch worktree"}, open(sys.argv[1],"w"), indent=1)
 PY
